@@ -86,9 +86,16 @@ func flipOp(op string) string {
 
 // c04Col writes a column reference; a name that is no plain word is given as a quoted (literal) key
 func c04Col(alias, name string) string {
-	if strings.Contains(name, ".") {
-		// a path into a nested object: x.`o.n`
-		return fmt.Sprintf("%s.`%s`", alias, name)
+	if i := strings.Index(name, "."); i > 0 {
+		// a path into a nested object: x.`o.n`; a key inside it that is no plain word is quoted there: x.`h.'x-id'`
+		inner := name[i+1:]
+		for _, r := range inner {
+			if !(r == '_' || r >= '0' && r <= '9' || r >= 'a' && r <= 'z' || r >= 'A' && r <= 'Z') {
+				inner = "'" + inner + "'"
+				break
+			}
+		}
+		return fmt.Sprintf("%s.`%s.%s`", alias, name[:i], inner)
 	}
 	for _, r := range name {
 		if !(r == '_' || r >= '0' && r <= '9' || r >= 'a' && r <= 'z' || r >= 'A' && r <= 'Z') {
@@ -214,8 +221,8 @@ func genC04(t *rapid.T) *Bundle {
 	npairs := rapid.IntRange(1, 3).Draw(t, "npairs")
 	// (names that are no plain words - "k-1", "user id" - are written as quoted keys)
 	// names with upper-case letters, and paths into a nested object (o.n is the n of the row's o)
-	lnames := rapid.Permutation([]string{"a", "z", "m", "k", "k-1", "UserId", "o.n"}).Draw(t, "lnames")[:npairs]
-	rnames := rapid.Permutation([]string{"m", "b", "a", "c", "user id", "UserId", "p.q"}).Draw(t, "rnames")[:npairs]
+	lnames := rapid.Permutation([]string{"a", "z", "m", "k", "k-1", "UserId", "o.n", "h.x-id"}).Draw(t, "lnames")[:npairs]
+	rnames := rapid.Permutation([]string{"m", "b", "a", "c", "user id", "UserId", "p.q", "meta.user-id"}).Draw(t, "rnames")[:npairs]
 	using := rapid.IntRange(0, 7).Draw(t, "using") == 0
 	if using {
 		// USING takes plain identifiers
@@ -578,9 +585,20 @@ func corpusC04() []*Bundle {
 		map[string]any{"id": num(8), "user id": num(3), "m": num(0)},
 		map[string]any{"id": num(9), "user id": num(1), "m": num(1.5)},
 	}
+	// (the key columns one level down, under keys that have to be quoted inside the path)
+	nt := []any{
+		map[string]any{"id": num(1), "h": map[string]any{"x-id": num(1)}},
+		map[string]any{"id": num(2), "h": map[string]any{"x-id": num(2)}},
+		map[string]any{"id": num(3), "h": map[string]any{"x-id": num(5)}},
+	}
+	nu := []any{
+		map[string]any{"id": num(7), "meta": map[string]any{"user-id": num(1)}},
+		map[string]any{"id": num(8), "meta": map[string]any{"user-id": num(3)}},
+	}
 	for _, typ := range []string{"inner", "left", "right"} {
 		for _, op := range []string{"=", "<=", "!="} {
 			out = append(out, mk("quoted-keys"+op, typ, leaf("k-1", "user id", op, false), qt, qu, "walk"))
+			out = append(out, mk("quoted-key-inside-a-path"+op, typ, leaf("h.x-id", "meta.user-id", op, false), nt, nu, "walk"))
 			for _, flip := range []bool{false, true} {
 				b := mk(fmt.Sprintf("fraction-vs-int%s-flip-%v", op, flip), typ, leaf("a", "m", op, flip), qt, qu, "walk")
 				b.Case.NativeIntKeys = []string{"t"}
